@@ -117,6 +117,7 @@ def T_nested():
 
 
 TEMPLATES = [T_main, T_diamond, T_nested]
+NPROC = 6            # shared machine
 
 # ------------------------------------------------------------------------------------------ observation
 
@@ -620,7 +621,7 @@ def run(res, tier, seed):
                     continue            # quick: unordered pairs only
                 jobs.extend(chunked(t.__name__, pre))
     jobs.sort(key=lambda j: len(j[1]))          # breadth first: short histories of every template before long ones
-    complete = run_jobs(res, jobs, worker)
+    complete = run_jobs(res, jobs, worker, nproc=NPROC)
     if complete and tier != "quick":
         rj = []
         for t in TEMPLATES:
@@ -629,7 +630,7 @@ def run(res, tier, seed):
                 rng = random.Random(seed * 7919 + k)
                 pre = tuple(rng.choice(preops) for _ in range(4))
                 rj.extend(chunked(t.__name__, pre))
-        complete = run_jobs(res, rj, worker) and complete
+        complete = run_jobs(res, rj, worker, nproc=NPROC) and complete
     res.exhaustive = bool(complete)
 
 
